@@ -97,6 +97,8 @@ def make_pack9(n, salt=0):
     for p in range(n):
         if p == 2:
             recs.append(('h', (7, 1999, 6, 0, 3 + salt % 3)))
+        if p == 3:
+            recs.append(('h', (7, 2222, 2, 5, 1)))      # same cells-per-dimension as the previous header, another velocity scale and cell
         s = [((p * 6 + c) * 397 + 31 * salt) % 2001 - 1000 for c in range(3)]
         s += [((p * 6 + c) * 1201 + 17 * salt) % 4001 - 2000 for c in range(3)]
         if p == 0:
